@@ -28,7 +28,7 @@ TRUSTED = [
 ASSUMPTIONS = [
     "the identity of a method value is (function name, arity, line of its first instruction); render puts every method on its own line",
     "the mini-language's evaluator is shared between S and M except for member lookup, invoke, super access, derives",
-    "module receivers of get/set/invoke and the 64-frame limit are outside the model",
+    "module receivers of get/set/invoke are outside the model; the 64-frame limit is modelled (ClassLang.frames_max)",
 ]
 
 KNOWN_SUPER_NESTED = "super-receiver-in-nested-function"
@@ -200,7 +200,9 @@ class Gen:
             if r.random() < 0.6:
                 body.append(S_print("ECapSelf"))
                 self.features.add("Self")
-            if mname != "new" and r.random() < 0.35:
+            if mname[0] == "s" and r.random() < 0.35:
+                # (only s0/s1: a static method that shadows an instance method name never constructs, so that
+                # initialiser -> self.m -> super.m -> Self.new cannot loop)
                 # construct through Self: the class the static method was invoked through
                 k = r.choice([0, 0, 1])
                 body.append(S_ret(E_inv("ECapSelf", "new", self.args(k))))
@@ -677,7 +679,8 @@ def gen_program(rng, big=False):
 
 
 def model_eval(cases, tag):
-    res = yvlib.coq_eval(["YV:ClassLang"], ["run_case %s" % c["term"] for c in cases], shard_size=40, tag=tag,
+    shard = max(4, min(40, (len(cases) + yvlib.NPROC - 1) // yvlib.NPROC))
+    res = yvlib.coq_eval(["YV:ClassLang"], ["run_case %s" % c["term"] for c in cases], shard_size=shard, tag=tag,
                          preamble="Open Scope string_scope.")
     out = []
     for c, s in zip(cases, res):
@@ -786,16 +789,22 @@ def compare(ctx, cases, models, recs, recs_meta, stats):
 
 
 def run_batch(ctx, cases, tag, stats):
+    import time
+    t0 = time.time()
     binary = os.environ.get("C07_HARNESS") or ctx.harness("debug")
+    fast = os.environ.get("C07_HARNESS") or ctx.harness("release")
     models = model_eval(cases, tag)
+    t1 = time.time()
     lines, lines_meta = [], []
     for c, m in zip(cases, models):
         src = m["src"] if m else "print(1);"
         srcm = m["src_meta"] if m else "print(1);"
         lines.append("classes - %s %s" % (hx(src), " ".join(hx(g) for g in c["globals"])))
         lines_meta.append("run - %s" % hx(srcm))
-    recs = yvlib.run_harness(binary, lines + lines_meta, case_timeout_ms=10000)
-    return models, recs[: len(cases)], recs[len(cases):]
+    recs = yvlib.run_harness(binary, lines, case_timeout_ms=10000)
+    recs_meta = yvlib.run_harness(fast, lines_meta, case_timeout_ms=10000)
+    log("[C07] %s: %d programs, model %.1fs, implementation %.1fs" % (tag, len(cases), t1 - t0, time.time() - t1))
+    return models, recs, recs_meta
 
 
 def split_top(term):
@@ -912,7 +921,8 @@ def finding_probe(ctx):
 
 def other_reference(ctx):
     if all(os.path.exists(os.path.join(yvlib.COQ, "theories", f)) for f in ("SpecRun.v", "ParseRun.v")):
-        ctx.notes.append("SpecRun.v/ParseRun.v exist: comparison with the full reference interpreter is not wired in yet")
+        ctx.notes.append("SpecRun.v/ParseRun.v exist: the comparison with the full reference interpreter is not wired into "
+                         "this check (its interface appeared after this plug-in was written)")
     else:
         ctx.notes.append("SpecRun.v/ParseRun.v (full reference interpreter) not present: that comparison is skipped")
 
@@ -932,7 +942,7 @@ def run(ctx):
         ctx.cov.update({"evaluations": 1, "distinct_nontrivial": len(stats["nontrivial"]), "rule": "replay of one program",
                         "samples": [inp.get("source", "")]})
         return
-    n = 480 if ctx.quick() else 6000
+    n = int(os.environ.get("C07_N", "0")) or (320 if ctx.quick() else 5000)
     cases = [gen_program(ctx.rng, big=(i % 3 == 2)) for i in range(n)]
     stats = new_stats()
     models, recs, recsm = run_batch(ctx, cases, "c07", stats)
